@@ -940,6 +940,36 @@ pub fn enumerate_bit_flips(acc: &mut Acc, test: &dyn Fn(&SdCase, &mut Acc) -> Re
             }
         }
     }
+    // the card stops answering / stays busy / answers garbage / holds the line from every byte
+    // position of identification and of the first transfer on
+    for kind in [Kind::V1Sc, Kind::V2Sc, Kind::V2Hc] {
+        let cap = if kind == Kind::V2Hc { Capacity { read_bl_len: 9, c_size_mult: 0, c_size: 0x1010 } } else { Capacity { read_bl_len: 9, c_size_mult: 7, c_size: 2047 } };
+        for at in 0..700u32 {
+            for which in 0..4u32 {
+                let fault = match which {
+                    0 => Fault::DeadFrom { at },
+                    1 => Fault::BusyFrom { at },
+                    2 => Fault::GarbageFrom { at, seed: at.wrapping_mul(2654435761) },
+                    _ => Fault::StuckFrom { at, value: 0x80 | (at as u8 & 0x7E) },
+                };
+                let c = SdCase {
+                    kind,
+                    use_crc: at % 2 == 1,
+                    acquire_retries: 2,
+                    cap: cap.clone(),
+                    timing: Timing { ncr: (at % 3) as u8, token_delay: 1, busy_write: 2, busy_stop: 1, init_polls: (at % 2) as u16, cmd0_ignored: 0, ocr_extra: 0, sluggish: false, busy_stop_write: 0, stop_gap: false, sticky_status: false, nwr_gap: false, nrc_gap: false, oor_status_only: false },
+                    bg_seed: 9 + at,
+                    calls: vec![SdCall::Read { block: BlockSel::Zero, n: 1 }, SdCall::Read { block: BlockSel::Zero, n: 1 }, SdCall::Write { block: BlockSel::Exact(5), n: 1, seed: at }, SdCall::Read { block: BlockSel::Exact(5), n: 1 }],
+                    faults: vec![fault],
+                };
+                acc.evaluations += 1;
+                acc.class("enumerated-misbehaviour-positions");
+                if let Err(f) = test(&c, acc) {
+                    return Some((f, serde_json::to_value(&c).unwrap()));
+                }
+            }
+        }
+    }
     // every single-bit corruption of the CSD register while CRC checking is off: the
     // capacity may come out wrong, but the call must return
     for kind in [Kind::V1Sc, Kind::V2Sc, Kind::V2Hc] {
